@@ -124,6 +124,9 @@ def run_conc_check(pid, tier, n_sched, n_free, race=False, assumptions=()):
     log("[%s] MC lock protocol vs monitor: %d distinct states, %d generated, %.1fs" % (pid, mc["states"], mc["transitions"], mc["wall"]))
     live = core.run_mc("MC_Conc.tla", "MC_Conc_live.cfg", "%s-mc-live" % pid, workers=8)
     log("[%s] liveness (WriteControl with a finite deadline always returns, fairness of the control callers only): %d states" % (pid, live["states"]))
+    ref = core.run_mc("MC_Conc.tla", "MC_Conc_refine.cfg", "%s-mc-refine" % pid, workers=8)
+    nobl = core.run_tlapm("proof/WSLockCoreProof.tla")
+    log("[%s] lock protocol refines WSLockCore (%d states); TLAPS: %d obligations of the inductive invariant proved (any number of threads)" % (pid, ref["states"], nobl))
     mut = core.expect_violation("MC_Conc.tla", "MC_Conc_mutation.cfg", "%s-mc-mutation" % pid)
     log("[%s] sensitivity: the 'sticky check before the lock' deviation violates %s after %d states (as it must)" % (pid, mut["invariant"], mut["states"]))
     sim = core.run_sim("MC_Conc.tla", "MC_Conc_sim.cfg" if tier == "quick" else "MC_Conc_sim_thorough.cfg", "%s-sim" % pid, n_sched, 200, seed)
@@ -203,7 +206,10 @@ def run_conc_check(pid, tier, n_sched, n_free, race=False, assumptions=()):
         path = core.save_replay(pid, "conc", prog, rj["trace"], "event %d not explained by WSConc: %s" % (rj["index"], json.dumps(rj["event"])[:500]),
                                 extra=dict(reproduced=ok))
         violations.append(path)
-    cov = dict(situations_observed=floors, expected_violation=dict(config="MC_Conc_mutation.cfg", invariant=mut["invariant"]), states=mc["states"] + live["states"], transitions=mc["transitions"] + live["transitions"], liveness_states=live["states"],
+    cov = dict(refinement=dict(config="MC_Conc_refine.cfg", states=ref["states"], property="Core!Spec (WSLockCore)"),
+               proof=dict(module="spec/proof/WSLockCoreProof.tla", obligations=nobl, discharged=nobl, checker_cmd="tlapm --threads 16 WSLockCoreProof.tla",
+                          theorem="Spec => []IndInv, hence a close frame is the last frame written and the transport section is exclusive, for any set of threads"),
+               situations_observed=floors, expected_violation=dict(config="MC_Conc_mutation.cfg", invariant=mut["invariant"]), states=mc["states"] + live["states"], transitions=mc["transitions"] + live["transitions"], liveness_states=live["states"],
                traces_validated_against_impl=res["traces"],
                trace_events=res["events"], simulated_model_states=sim["states"], schedules_replayed=len(conc), free_runs=len(free),
                race_detector=race, races=races, evaluations=res["traces"], distinct_nontrivial=len(conc),
